@@ -228,6 +228,10 @@ func runScenarioX(ctx *CaseCtx, s Scenario, r *rand.Rand, reps int, res *CaseRes
 			prep(in)
 		}
 		args := in.AllArgs(0, r)
+		if r.Intn(5) == 0 {
+			pollute(r)
+			res.obs("operations_preceded_by_an_unrelated_failing_one", 1)
+		}
 		o := DoCall(in.W, in.Target.Func, args)
 		res.Evals++
 		checkCall(in, &o, &cf, 0, 0, res)
